@@ -162,5 +162,5 @@ def jobs(tier, seed):
     n = 1000 if tier == "quick" else 8000
     for j in range(4 if tier == "quick" else 16):
         out.append({"kind": "epochs", "n": n, "seed": seed * 100 + j})
-        out.append({"kind": "since", "n": n, "seed": seed * 100 + 50 + j})
+        out.append({"kind": "since", "n": n * 2, "seed": seed * 100 + 50 + j})
     return out
